@@ -38,6 +38,7 @@ func rulesC03(c *Ctx) {
 	ruleCanDeleteTable(c)
 	ruleCounterPrimitives(c)
 	ruleCounterCallers(c)
+	ruleStateWriters(c, writersRIB)
 }
 
 // R3.0
